@@ -22,7 +22,8 @@ META = {
         'string is included in the specification language of that kind: type prefix of its kind, payload in that '
         'kind\'s lexical form (non-finite numbers n:INF/-INF/NaN); non-string kinds map to JSON null/true/false/array/'
         'object.  (D3) keys written by the dumper itself (ver, name) are reported.  Also: dates/times formatted with strftime are modelled with %Y as 1-4 digits (unpadded); the list of grids is never filtered by truthiness; SortableDict.items() conformance (shared with C16.D5).  Not decided: independent-reader '
-        'execution; six-decimal closeness.'),
+        'execution; six-decimal closeness.'
+        ' Also (D1): dump() compares the mode with the MODE constants only after _parse_mode.'),
     'rule_text': 'obligations = shape facts + kinds x versions (inclusion in the spec language)',
     'trusted_base': ['json.dumps emits valid JSON for dict/list/str/bool/None'],
 }
@@ -42,6 +43,8 @@ def json_spec(names):
 def run(ctx):
     _zinc.ladder_check(ctx, 'C06.D2', 'jsondumper', 'json')
     _shape(ctx)
+    from . import _dump
+    _dump.mode_sanitised(ctx, 'C06.D1', 'dumper')
     _zinc.version_threading(ctx, 'C06.D2', 'jsondumper')
     for version in ('3.0', '2.0'):
         for kind in _zinc.kinds_for(version):
@@ -61,7 +64,11 @@ def _kind(ctx, kind, version):
     try:
         rets, node, lad = J.writer_value(ctx, rule, kind, version)
     except (Unsupported, AnalysisError) as e:
-        ctx.error(rule, 'JSON writer value for %s (%s): %s' % (kind, version, e))
+        from .. import templates as _TPL
+        if isinstance(e, _TPL.DataAsFormat):
+            _TPL.report_data_as_format(ctx, rule, e, 'hszinc/jsondumper.py', 'hszinc/jsondumper.py::dump_scalar[%s]' % kind)
+        else:
+            ctx.error(rule, 'JSON writer value for %s (%s): %s' % (kind, version, e))
         return
     if rets is None:
         return
